@@ -1,5 +1,6 @@
 //! C15 harness: incremental fitting (Gaussian / multinomial naive Bayes, mini-batch k-means, FTRL) on
-//! generated histories; emits Coq cases for C15/Corr.v and evaluates a few model-free oracles directly.
+//! generated histories, at `f64` and at `f32`; emits Coq cases for C15/Corr.v and evaluates a few model-free
+//! oracles directly.  Values of either element type cross as exact binary64 literals (every f32 is an f64).
 use linfa::dataset::Pr;
 use linfa::prelude::*;
 use linfa::traits::{Fit, FitWith, Predict};
@@ -14,36 +15,56 @@ use rand_xoshiro::Xoshiro256Plus;
 use std::collections::{BTreeMap, HashMap};
 use vh::*;
 
-fn arr(rows: &[Vec<f64>], d: usize) -> Array2<f64> {
-    Array2::from_shape_vec((rows.len(), d), rows.iter().flatten().cloned().collect()).unwrap()
+/// the two element types of the learners
+trait HF: linfa::Float + serde::Serialize + serde::de::DeserializeOwned + std::panic::UnwindSafe + std::panic::RefUnwindSafe + 'static {
+    const F32: bool;
+    fn of64(v: f64) -> Self;
+    fn to64(self) -> f64;
 }
+impl HF for f64 {
+    const F32: bool = false;
+    fn of64(v: f64) -> f64 { v }
+    fn to64(self) -> f64 { self }
+}
+impl HF for f32 {
+    const F32: bool = true;
+    fn of64(v: f64) -> f32 { v as f32 }
+    fn to64(self) -> f64 { self as f64 }
+}
+/// round the generated data to the element type (identity at f64)
+fn rnd<F: HF>(v: f64) -> f64 { F::of64(v).to64() }
+fn rnd_rows<F: HF>(x: &[Vec<f64>]) -> Vec<Vec<f64>> { x.iter().map(|r| r.iter().map(|v| rnd::<F>(*v)).collect()).collect() }
+
+fn arr<F: HF>(rows: &[Vec<f64>], d: usize) -> Array2<F> {
+    Array2::from_shape_vec((rows.len(), d), rows.iter().flatten().map(|v| F::of64(*v)).collect()).unwrap()
+}
+fn vec64<F: HF>(a: &Array1<F>) -> Vec<f64> { a.iter().map(|v| v.to64()).collect() }
 
 // ------------------------------------------------------------------------------------------------
 // naive Bayes
 // ------------------------------------------------------------------------------------------------
 #[derive(Clone, Debug)]
 struct Info { label: usize, count: usize, prior: f64, v1: Vec<f64>, v2: Vec<f64> }
-type RawInfo = (usize, f64, Array1<f64>, Array1<f64>);
 
 /// the class statistics are private: they are read through the (bit-exact) bincode serialisation, whose
 /// layout is the field order of the structs (class_count, prior, theta|feature_count, sigma|feature_log_prob)
-fn read_state<M: serde::Serialize>(m: &M) -> Vec<Info> {
+fn read_state<F: HF, M: serde::Serialize>(m: &M) -> Vec<Info> {
     let bytes = bincode::serialize(m).unwrap();
-    let map: HashMap<usize, RawInfo> = bincode::deserialize(&bytes).unwrap();
+    let map: HashMap<usize, (usize, F, Array1<F>, Array1<F>)> = bincode::deserialize(&bytes).unwrap();
     let mut v: Vec<Info> = map
         .into_iter()
-        .map(|(k, (c, p, a, b))| Info { label: k, count: c, prior: p, v1: a.to_vec(), v2: b.to_vec() })
+        .map(|(k, (c, p, a, b))| Info { label: k, count: c, prior: p.to64(), v1: vec64(&a), v2: vec64(&b) })
         .collect();
     v.sort_by_key(|i| i.label);
     v
 }
 
-enum NbModel { G(GaussianNb<f64, usize>), M(MultinomialNb<f64, usize>) }
-impl NbModel {
+enum NbModel<F: HF> { G(GaussianNb<F, usize>), M(MultinomialNb<F, usize>) }
+impl<F: HF> NbModel<F> {
     fn state(&self) -> Vec<Info> {
-        match self { NbModel::G(m) => read_state(m), NbModel::M(m) => read_state(m) }
+        match self { NbModel::G(m) => read_state::<F, _>(m), NbModel::M(m) => read_state::<F, _>(m) }
     }
-    fn predict(&self, q: &Array2<f64>) -> Vec<Option<usize>> {
+    fn predict(&self, q: &Array2<F>) -> Vec<Option<usize>> {
         // row by row: a NaN likelihood makes `argmax().unwrap()` panic - an observation (None), not a crash
         (0..q.nrows())
             .map(|i| {
@@ -58,34 +79,34 @@ impl NbModel {
     }
 }
 
-fn nb_history(multi: bool, param: f64, x: &[Vec<f64>], y: &[usize], d: usize, cuts: &[usize]) -> Result<NbModel, String> {
+fn nb_history<F: HF>(multi: bool, param: f64, x: &[Vec<f64>], y: &[usize], d: usize, cuts: &[usize]) -> Result<NbModel<F>, String> {
     let mut pos = 0;
     if multi {
-        let params = MultinomialNb::<f64, usize>::params().alpha(param);
-        let mut model: Option<MultinomialNb<f64, usize>> = None;
+        let params = MultinomialNb::<F, usize>::params().alpha(F::of64(param));
+        let mut model: Option<MultinomialNb<F, usize>> = None;
         for &c in cuts {
-            let ds = Dataset::new(arr(&x[pos..pos + c], d), Array1::from(y[pos..pos + c].to_vec()));
+            let ds = Dataset::new(arr::<F>(&x[pos..pos + c], d), Array1::from(y[pos..pos + c].to_vec()));
             model = params.fit_with(model, &ds).map_err(|e| format!("{}", e))?;
             pos += c;
         }
         model.map(NbModel::M).ok_or_else(|| "no model".to_string())
     } else {
-        let params = GaussianNb::<f64, usize>::params().var_smoothing(param);
-        let mut model: Option<GaussianNb<f64, usize>> = None;
+        let params = GaussianNb::<F, usize>::params().var_smoothing(F::of64(param));
+        let mut model: Option<GaussianNb<F, usize>> = None;
         for &c in cuts {
-            let ds = Dataset::new(arr(&x[pos..pos + c], d), Array1::from(y[pos..pos + c].to_vec()));
+            let ds = Dataset::new(arr::<F>(&x[pos..pos + c], d), Array1::from(y[pos..pos + c].to_vec()));
             model = params.fit_with(model, &ds).map_err(|e| format!("{}", e))?;
             pos += c;
         }
         model.map(NbModel::G).ok_or_else(|| "no model".to_string())
     }
 }
-fn nb_batch(multi: bool, param: f64, x: &[Vec<f64>], y: &[usize], d: usize) -> Result<NbModel, String> {
-    let ds = Dataset::new(arr(x, d), Array1::from(y.to_vec()));
+fn nb_batch<F: HF>(multi: bool, param: f64, x: &[Vec<f64>], y: &[usize], d: usize) -> Result<NbModel<F>, String> {
+    let ds = Dataset::new(arr::<F>(x, d), Array1::from(y.to_vec()));
     if multi {
-        MultinomialNb::<f64, usize>::params().alpha(param).fit(&ds).map(NbModel::M).map_err(|e| format!("{}", e))
+        MultinomialNb::<F, usize>::params().alpha(F::of64(param)).fit(&ds).map(NbModel::M).map_err(|e| format!("{}", e))
     } else {
-        GaussianNb::<f64, usize>::params().var_smoothing(param).fit(&ds).map(NbModel::G).map_err(|e| format!("{}", e))
+        GaussianNb::<F, usize>::params().var_smoothing(F::of64(param)).fit(&ds).map(NbModel::G).map_err(|e| format!("{}", e))
     }
 }
 
@@ -99,22 +120,23 @@ fn optn(p: &Option<usize>) -> String {
     match p { Some(k) => format!("Some {}", cn(*k as u64)), None => "None".into() }
 }
 
+/// table of the logarithms the library takes, computed with the element type's own `ln`
 struct LnTab(BTreeMap<u64, f64>);
 impl LnTab {
-    fn add(&mut self, x: f64) {
-        if !x.is_nan() { self.0.insert(x.to_bits(), x.ln()); }
+    fn add<F: HF>(&mut self, x: F) {
+        if !x.is_nan() { self.0.insert(x.to64().to_bits(), x.ln().to64()); }
     }
     /// every logarithm the library takes when it predicts from / last updated this state
-    fn add_state(&mut self, multi: bool, param: f64, st: &[Info]) {
+    fn add_state<F: HF>(&mut self, multi: bool, param: f64, st: &[Info]) {
         for i in st {
-            self.add(i.prior);
+            self.add(F::of64(i.prior));
             if multi {
-                let sm = Array1::from(i.v1.clone()) + param;
+                let sm: Array1<F> = Array1::from(i.v1.iter().map(|v| F::of64(*v)).collect::<Vec<F>>()) + F::of64(param);
                 let cnt = sm.sum();
                 for v in sm.iter() { self.add(*v); }
                 self.add(cnt);
             } else {
-                for s in &i.v2 { self.add(2. * std::f64::consts::PI * *s); }
+                for s in &i.v2 { self.add(F::cast(2. * std::f64::consts::PI) * F::of64(*s)); }
             }
         }
     }
@@ -198,14 +220,26 @@ fn rel_close(a: f64, b: f64, rel: f64) -> bool {
     (a - b).abs() <= rel * (1.0 + a.abs() + b.abs())
 }
 
-#[allow(clippy::too_many_arguments)]
-fn nb_case(out: &mut Out, id: u64, r: &mut Sm64, exhaustive: bool, thorough: bool) {
+/// does the checked-out gaussian_nb.rs carry the repair of finding F12 (design-notes/fixes/C15_F12.diff)?
+/// The repaired recurrence is a different function of the history, so the model variant is selected by the source.
+fn gnb_repaired() -> bool {
+    let repo = std::env::var("VERIF_REPO").unwrap_or_else(|_| "/repo".into());
+    std::fs::read_to_string(format!("{}/algorithms/linfa-bayes/src/gaussian_nb.rs", repo))
+        .map(|s| s.contains("fn max_pooled_variance"))
+        .unwrap_or(false)
+}
+
+fn nb_case<F: HF>(out: &mut Out, id: u64, r: &mut Sm64, exhaustive: bool, thorough: bool, repaired: bool) {
     let multi = r.chance(0.42);
     let d = 1 + r.below(if exhaustive { 3 } else { 5 }) as usize;
-    let n = if exhaustive { 4 + r.below(if thorough { 5 } else { 4 }) as usize } else { 2 + r.below(if thorough { 199 } else { 70 }) as usize };
+    let n = if F::F32 {
+        // binary32 arithmetic costs ~50 us per operation inside Coq: smaller data, fewer histories
+        if exhaustive { 3 + r.below(3) as usize } else { 2 + r.below(if thorough { 60 } else { 28 }) as usize }
+    } else if exhaustive { 4 + r.below(if thorough { 5 } else { 4 }) as usize } else { 2 + r.below(if thorough { 199 } else { 70 }) as usize };
     let nc = 1 + r.below(std::cmp::min(4, n) as u64) as usize;
     let fam = r.below(5);
-    let (mut x, mut y, exact) = gen_nb_data(r, multi, n, d, nc, fam);
+    let (x0, mut y, mut exact) = gen_nb_data(r, multi, n, d, nc, fam);
+    let mut x = rnd_rows::<F>(&x0);
     let order = r.below(3);
     // twin classes: two labels own exactly the same rows -> exactly tied posteriors in the single fit
     let twin = r.chance(0.15) && n >= 2;
@@ -225,11 +259,11 @@ fn nb_case(out: &mut Out, id: u64, r: &mut Sm64, exhaustive: bool, thorough: boo
         y = idx.iter().map(|&i| y[i]).collect();
     }
     let mut copies = 1;
-    let param = if multi {
+    let param = rnd::<F>(if multi {
         *r.pick(&[1.0, 1.0, 0.5, 1e-3, 0.0, 7.0])
     } else {
         *r.pick(&[0.0, 0.0, 0.0, 1e-9, 1e-3, 0.1])
-    };
+    });
     if !multi && param > 0.0 && !exhaustive && r.chance(0.5) && n <= 40 {
         // every batch is the same block: all per-batch epsilons (and the one of the whole data) coincide
         copies = 2 + r.below(3) as usize;
@@ -237,6 +271,7 @@ fn nb_case(out: &mut Out, id: u64, r: &mut Sm64, exhaustive: bool, thorough: boo
         for _ in 1..copies { x.extend(bx.iter().cloned()); y.extend(by.iter().cloned()); }
     }
     let ntot = x.len();
+    if F::F32 && multi && x.iter().map(|r| r.iter().sum::<f64>()).sum::<f64>() >= 16777216.0 { exact = false; }
     let cutsets: Vec<Vec<usize>> = if exhaustive {
         compositions(ntot)
     } else if copies > 1 {
@@ -254,16 +289,16 @@ fn nb_case(out: &mut Out, id: u64, r: &mut Sm64, exhaustive: bool, thorough: boo
             1 => {
                 let a = &x[r.below(ntot as u64) as usize];
                 let b = &x[r.below(ntot as u64) as usize];
-                q.push(a.iter().zip(b).map(|(u, v)| (u + v) / 2.0).collect());
+                q.push(a.iter().zip(b).map(|(u, v)| rnd::<F>((u + v) / 2.0)).collect());
             }
-            _ => q.push(x[r.below(ntot as u64) as usize].iter().map(|v| if multi { (v + r.below(3) as f64).abs() } else { v + r.gauss() }).collect()),
+            _ => q.push(x[r.below(ntot as u64) as usize].iter().map(|v| rnd::<F>(if multi { (v + r.below(3) as f64).abs() } else { v + r.gauss() })).collect()),
         }
     }
-    let qa = arr(&q, d);
+    let qa = arr::<F>(&q, d);
 
-    // epsilon classes of finding F12 (decidable from the input alone)
-    let mut tags: Vec<String> = vec![if multi { "mnb".into() } else { "gnb".into() }, format!("fam_{}", fam)];
-    let eps_of = |rows: &[Vec<f64>]| -> f64 { param * *arr(rows, d).var_axis(Axis(0), 0.0).max().unwrap_or(&f64::NAN) };
+    // epsilon classes of finding F12 (decidable from the input alone; exact binary64 arithmetic on the data suffices)
+    let mut tags: Vec<String> = vec![if multi { "mnb".into() } else { "gnb".into() }, format!("fam_{}", fam), if F::F32 { "f32".into() } else { "f64".into() }];
+    let eps_of = |rows: &[Vec<f64>]| -> f64 { param * *arr::<f64>(rows, d).var_axis(Axis(0), 0.0).max().unwrap_or(&f64::NAN) };
     let mut eps_differ = false;
     if !multi {
         let eall = eps_of(&x);
@@ -280,37 +315,38 @@ fn nb_case(out: &mut Out, id: u64, r: &mut Sm64, exhaustive: bool, thorough: boo
     }
     let nclasses_present = { let mut l = y.clone(); l.sort(); l.dedup(); l.len() };
     let desc = format!(
-        "{{\"learner\": {}, \"n\": {}, \"d\": {}, \"classes\": {}, \"param\": {:e}, \"family\": {}, \"order\": {}, \"copies\": {}, \"histories\": {}, \"exhaustive\": {}, \"X_first_row\": {:?}, \"y\": {:?}}}",
-        jstr(if multi { "multinomial_nb" } else { "gaussian_nb" }), ntot, d, nclasses_present, param, fam, order, copies, cutsets.len(), exhaustive, x[0], &y[..std::cmp::min(y.len(), 24)]
+        "{{\"learner\": {}, \"float\": {}, \"n\": {}, \"d\": {}, \"classes\": {}, \"param\": {:e}, \"family\": {}, \"order\": {}, \"copies\": {}, \"histories\": {}, \"exhaustive\": {}, \"X_first_row\": {:?}, \"y\": {:?}}}",
+        jstr(if multi { "multinomial_nb" } else { "gaussian_nb" }), jstr(if F::F32 { "f32" } else { "f64" }), ntot, d, nclasses_present, param, fam, order, copies, cutsets.len(), exhaustive, x[0], &y[..std::cmp::min(y.len(), 24)]
     );
     out.bump(if multi { "nb_multinomial" } else { "nb_gaussian" });
+    out.bump(if F::F32 { "nb_f32" } else { "nb_f64" });
     out.bump(if exhaustive { "nb_exhaustive_compositions" } else { "nb_random_cuts" });
     out.bump(&format!("nb_classes_{}", nclasses_present));
     if twin { out.bump("nb_twin_classes_exact_ties"); }
     if !multi { out.bump(if param > 0.0 { if eps_differ { "gnb_vs_pos_eps_differ" } else { "gnb_vs_pos_eps_equal" } } else { "gnb_vs_zero" }); }
     let tagrefs: Vec<&str> = tags.iter().map(|s| s.as_str()).collect();
 
-    let batch = match nb_batch(multi, param, &x, &y, d) {
+    let batch = match nb_batch::<F>(multi, param, &x, &y, d) {
         Ok(m) => m,
         Err(e) => { out.rust_fail(id, 1 << 20, &tagrefs, &format!("batch fit failed on valid data: {}", e), &desc); out.rust_eval(&desc, None); return; }
     };
     let bstate = batch.state();
     let bpred = batch.predict(&qa);
     let mut tab = LnTab(BTreeMap::new());
-    tab.add_state(multi, param, &bstate);
+    tab.add_state::<F>(multi, param, &bstate);
     let mut hists: Vec<String> = Vec::new();
     let mut incomplete = 0u64;
     let mut nbatches = 0u64;
     for (hi, cuts) in cutsets.iter().enumerate() {
-        let model = match nb_history(multi, param, &x, &y, d, cuts) {
+        let model = match nb_history::<F>(multi, param, &x, &y, d, cuts) {
             Ok(m) => m,
             Err(e) => { out.rust_fail(id, 1 << 20, &tagrefs, &format!("fit_with failed on valid batches {:?}: {}", cuts, e), &desc); out.rust_eval(&desc, None); return; }
         };
         let st = model.state();
-        if multi || hi < 2 { tab.add_state(multi, param, &st); }
+        if multi || hi < 2 { tab.add_state::<F>(multi, param, &st); }
         // intermediate states of the multinomial model take logarithms too (their results are overwritten or kept)
         let pred = if hi < 2 || (!exhaustive && hi < 4) {
-            if !multi { tab.add_state(multi, param, &st); }
+            if !multi { tab.add_state::<F>(multi, param, &st); }
             clist(&model.predict(&qa), optn)
         } else { "[]".into() };
         let mut pos = 0;
@@ -326,7 +362,7 @@ fn nb_case(out: &mut Out, id: u64, r: &mut Sm64, exhaustive: bool, thorough: boo
                 let tot: f64 = i.v1.iter().sum::<f64>() + param * d as f64;
                 for j in 0..d {
                     let want = ((i.v1[j] + param) / tot).ln();
-                    let ok = if want.is_finite() { rel_close(i.v2[j], want, 1e-9) } else { i.v2[j] == want || (i.v2[j].is_nan() && want.is_nan()) };
+                    let ok = if want.is_finite() { rel_close(i.v2[j], want, if F::F32 { 1e-4 } else { 1e-9 }) } else { i.v2[j] == want || (i.v2[j].is_nan() && want.is_nan()) };
                     if !ok {
                         out.rust_fail(id, 1 << 17, &tagrefs, &format!("feature_log_prob[{}][{}] = {:e}, smoothed frequency gives {:e} (history {:?})", i.label, j, i.v2[j], want, cuts), &desc);
                     }
@@ -342,8 +378,8 @@ fn nb_case(out: &mut Out, id: u64, r: &mut Sm64, exhaustive: bool, thorough: boo
     out.bump_by("nb_batches", nbatches);
     out.bump_by("nb_class_incomplete_batches", incomplete);
     let coq = format!(
-        "{{| c_id := {}; c_body := NB {{| n_multinomial := {}; n_param := {}; n_d := {}; n_X := {}; n_y := {}; n_batch := {}; n_batch_pred := {}; n_query := {}; n_ln := {}; n_exact := {}; n_hists := [{}] |}} |}}",
-        cn(id), cbool(multi), sf64(param), cn(d as u64), cmat64(&x), cvecn(&y), clist(&bstate, info_term), clist(&bpred, optn),
+        "{{| c_id := {}; c_body := NB {{| n_f32 := {}; n_repaired := {}; n_multinomial := {}; n_param := {}; n_d := {}; n_X := {}; n_y := {}; n_batch := {}; n_batch_pred := {}; n_query := {}; n_ln := {}; n_exact := {}; n_hists := [{}] |}} |}}",
+        cn(id), cbool(F::F32), cbool(repaired), cbool(multi), sf64(param), cn(d as u64), cmat64(&x), cvecn(&y), clist(&bstate, info_term), clist(&bpred, optn),
         cmat64(&q), tab.term(), cbool(exact), hists.join("; ")
     );
     let key = if nclasses_present > 1 && cutsets.iter().any(|c| c.len() > 1) { Some(fnv_f64s(&x.concat(), id << 3 | multi as u64)) } else { None };
@@ -358,44 +394,53 @@ enum Met { L1, L2, Linf }
 
 struct KStep { x: Vec<Vec<f64>>, centroids: Vec<Vec<f64>>, counts: Vec<f64>, inertia: f64, ok: bool }
 
-fn km_run<D: Distance<f64> + Clone + std::fmt::Debug + 'static>(
+fn km_run<F: HF, D: Distance<F> + Clone + std::fmt::Debug + 'static>(
     dist: D, k: usize, init: Option<&Vec<Vec<f64>>>, seed: u64, tol: f64, d: usize, batches: &[Vec<Vec<f64>>],
 ) -> Result<Vec<KStep>, String> {
     let rng = Xoshiro256Plus::seed_from_u64(seed);
-    let im = match init { Some(c) => KMeansInit::Precomputed(arr(c, d)), None => KMeansInit::Random };
-    let params = KMeans::params_with(k, rng, dist).tolerance(tol).n_runs(1).init_method(im);
-    let mut model: Option<KMeans<f64, D>> = None;
+    let im = match init { Some(c) => KMeansInit::Precomputed(arr::<F>(c, d)), None => KMeansInit::Random };
+    let params = KMeans::params_with(k, rng, dist).tolerance(F::of64(tol)).n_runs(1).init_method(im);
+    let mut model: Option<KMeans<F, D>> = None;
     let mut steps = Vec::new();
     for b in batches {
-        let ds = DatasetBase::from(arr(b, d));
+        let ds = DatasetBase::from(arr::<F>(b, d));
         let (m, ok) = match params.fit_with(model, &ds) {
             Ok(m) => (m, true),
             Err(IncrKMeansError::NotConverged(m)) => (m, false),
             Err(e) => return Err(format!("{}", e)),
         };
-        steps.push(KStep { x: b.clone(), centroids: rows_of(&m.centroids().view()), counts: m.cluster_count().to_vec(), inertia: m.inertia(), ok });
+        steps.push(KStep {
+            x: b.clone(),
+            centroids: m.centroids().rows().into_iter().map(|r| r.iter().map(|v| v.to64()).collect()).collect(),
+            counts: vec64(m.cluster_count()),
+            inertia: m.inertia().to64(),
+            ok,
+        });
         model = Some(m);
     }
     Ok(steps)
 }
-fn km_go(m: Met, k: usize, init: Option<&Vec<Vec<f64>>>, seed: u64, tol: f64, d: usize, batches: &[Vec<Vec<f64>>]) -> Result<Vec<KStep>, String> {
+fn km_go<F: HF>(m: Met, k: usize, init: Option<&Vec<Vec<f64>>>, seed: u64, tol: f64, d: usize, batches: &[Vec<Vec<f64>>]) -> Result<Vec<KStep>, String> {
     let (i2, b2) = (init.cloned(), batches.to_vec());
     match guarded(move || match m {
-        Met::L1 => km_run(L1Dist, k, i2.as_ref(), seed, tol, d, &b2),
-        Met::L2 => km_run(L2Dist, k, i2.as_ref(), seed, tol, d, &b2),
-        Met::Linf => km_run(LInfDist, k, i2.as_ref(), seed, tol, d, &b2),
+        Met::L1 => km_run::<F, _>(L1Dist, k, i2.as_ref(), seed, tol, d, &b2),
+        Met::L2 => km_run::<F, _>(L2Dist, k, i2.as_ref(), seed, tol, d, &b2),
+        Met::Linf => km_run::<F, _>(LInfDist, k, i2.as_ref(), seed, tol, d, &b2),
     }) { Ok(r) => r, Err(p) => Err(format!("PANIC: {}", p)) }
 }
-fn cdist(m: Met, a: &[Vec<f64>], b: &[Vec<f64>]) -> f64 {
-    let (fa, fb): (Vec<f64>, Vec<f64>) = (a.concat(), b.concat());
+/// distance between two centroid matrices as the library computes it (sequential folds in the element type;
+/// the L2 square root is taken in f64 and rounded back)
+fn cdist<F: HF>(m: Met, a: &[Vec<f64>], b: &[Vec<f64>]) -> f64 {
+    let fa: Vec<F> = a.concat().iter().map(|v| F::of64(*v)).collect();
+    let fb: Vec<F> = b.concat().iter().map(|v| F::of64(*v)).collect();
     match m {
-        Met::L2 => fa.iter().zip(&fb).fold(0.0, |acc, (x, y)| acc + (x - y) * (x - y)).sqrt(),
-        Met::L1 => fa.iter().zip(&fb).fold(0.0, |acc, (x, y)| acc + (x - y).abs()),
-        Met::Linf => fa.iter().zip(&fb).fold(0.0, |acc: f64, (x, y)| { let dd = (x - y).abs(); if acc < dd { dd } else { acc } }),
+        Met::L2 => F::of64(fa.iter().zip(&fb).fold(F::zero(), |acc, (x, y)| acc + (*x - *y) * (*x - *y)).to64().sqrt()).to64(),
+        Met::L1 => fa.iter().zip(&fb).fold(F::zero(), |acc, (x, y)| acc + (*x - *y).abs()).to64(),
+        Met::Linf => fa.iter().zip(&fb).fold(F::zero(), |acc: F, (x, y)| { let dd = (*x - *y).abs(); if acc < dd { dd } else { acc } }).to64(),
     }
 }
 
-fn km_case(out: &mut Out, id: u64, r: &mut Sm64, thorough: bool) {
+fn km_case<F: HF>(out: &mut Out, id: u64, r: &mut Sm64, thorough: bool) {
     let d = 1 + r.below(3) as usize;
     let k = 1 + r.below(4) as usize;
     let m = *r.pick(&[Met::L2, Met::L2, Met::L2, Met::L1, Met::Linf]);
@@ -404,12 +449,13 @@ fn km_case(out: &mut Out, id: u64, r: &mut Sm64, thorough: bool) {
     let centers: Vec<Vec<f64>> = (0..k + 1).map(|_| (0..d).map(|_| r.range(-8, 8) as f64 * 2.0).collect()).collect();
     let point = |r: &mut Sm64| -> Vec<f64> {
         let c = r.pick(&centers).clone();
-        match kind {
+        let p: Vec<f64> = match kind {
             0 => c.iter().map(|v| v + 0.4 * r.gauss()).collect(),
             1 => (0..d).map(|_| r.range(-2, 2) as f64).collect(),       // lattice: ties between centroids, duplicates
             2 => c.iter().map(|v| 0.2 * v + 2.0 * r.gauss()).collect(),
             _ => c.iter().map(|v| 1e3 * v + 1e-2 * r.gauss()).collect(),
-        }
+        };
+        p.iter().map(|v| rnd::<F>(*v)).collect()
     };
     let random_init = r.chance(0.2);
     let first_n = if random_init { k + r.below(8) as usize } else { 1 + r.below(10) as usize };
@@ -426,35 +472,36 @@ fn km_case(out: &mut Out, id: u64, r: &mut Sm64, thorough: bool) {
             _ => point(r),
         }).collect()
     };
-    let mut tol = *r.pick(&[1e-300, 1e-4, 0.05, 0.5, 2.0, 1e9]);
+    let mut tol = rnd::<F>(*r.pick(&[if F::F32 { 1e-30 } else { 1e-300 }, 1e-4, 0.05, 0.5, 2.0, 1e9]));
     let mut border = false;
     if r.chance(0.35) {
         // put the tolerance exactly on an observed centroid shift: `dist < tol` must answer "not converged"
-        if let Ok(steps) = km_go(m, k, if random_init { None } else { Some(&init) }, seed, tol, d, &batches) {
+        if let Ok(steps) = km_go::<F>(m, k, if random_init { None } else { Some(&init) }, seed, tol, d, &batches) {
             let s = r.below(steps.len() as u64) as usize;
             let prev = if s == 0 { init.clone() } else { steps[s - 1].centroids.clone() };
-            let t = cdist(m, &prev, &steps[s].centroids);
+            let t = cdist::<F>(m, &prev, &steps[s].centroids);
             if t.is_finite() && t > 0.0 { tol = t; border = true; }
         }
     }
     let mname = format!("{:?}", m);
-    let tags = vec!["kmeans".to_string(), format!("metric_{}", mname)];
+    let tags = vec!["kmeans".to_string(), format!("metric_{}", mname), if F::F32 { "f32".into() } else { "f64".into() }];
     let tagrefs: Vec<&str> = tags.iter().map(|s| s.as_str()).collect();
     let desc = format!(
-        "{{\"learner\": \"kmeans_incremental\", \"metric\": {}, \"k\": {}, \"d\": {}, \"tol\": {:e}, \"tol_on_border\": {}, \"batches\": {:?}, \"init\": {}, \"seed\": {}, \"kind\": {}, \"first_row\": {:?}}}",
-        jstr(&mname), k, d, tol, border, batches.iter().map(|b| b.len()).collect::<Vec<_>>(), jstr(if random_init { "random" } else { "precomputed" }), seed, kind, batches[0][0]
+        "{{\"learner\": \"kmeans_incremental\", \"float\": {}, \"metric\": {}, \"k\": {}, \"d\": {}, \"tol\": {:e}, \"tol_on_border\": {}, \"batches\": {:?}, \"init\": {}, \"seed\": {}, \"kind\": {}, \"first_row\": {:?}}}",
+        jstr(if F::F32 { "f32" } else { "f64" }), jstr(&mname), k, d, tol, border, batches.iter().map(|b| b.len()).collect::<Vec<_>>(), jstr(if random_init { "random" } else { "precomputed" }), seed, kind, batches[0][0]
     );
     out.bump("kmeans_cases");
+    out.bump(if F::F32 { "kmeans_f32" } else { "kmeans_f64" });
     out.bump(&format!("kmeans_metric_{}", mname));
     out.bump(if random_init { "kmeans_init_random" } else { "kmeans_init_precomputed" });
     if border { out.bump("kmeans_tol_on_border"); }
-    match km_go(m, k, if random_init { None } else { Some(&init) }, seed, tol, d, &batches) {
+    match km_go::<F>(m, k, if random_init { None } else { Some(&init) }, seed, tol, d, &batches) {
         Err(e) => { out.rust_fail(id, 1 << 21, &tagrefs, &format!("fit_with failed on valid batches: {}", e), &desc); out.rust_eval(&desc, None); }
         Ok(steps) => {
             out.bump_by("kmeans_steps", steps.len() as u64);
             out.bump_by("kmeans_steps_converged", steps.iter().filter(|s| s.ok).count() as u64);
             // history is a function of the batches alone: a second run reproduces every bit
-            if let Ok(again) = km_go(m, k, if random_init { None } else { Some(&init) }, seed, tol, d, &batches) {
+            if let Ok(again) = km_go::<F>(m, k, if random_init { None } else { Some(&init) }, seed, tol, d, &batches) {
                 let same = steps.iter().zip(&again).all(|(a, b)| a.ok == b.ok && a.inertia.to_bits() == b.inertia.to_bits()
                     && a.centroids.concat().iter().zip(b.centroids.concat().iter()).all(|(u, v)| u.to_bits() == v.to_bits()));
                 if !same { out.rust_fail(id, 1 << 22, &tagrefs, "two runs of the same history differ", &desc); }
@@ -463,8 +510,8 @@ fn km_case(out: &mut Out, id: u64, r: &mut Sm64, thorough: bool) {
                 "{{| ks_X := {}; ks_centroids := {}; ks_counts := {}; ks_inertia := {}; ks_ok := {} |}}",
                 cmat64(&s.x), cmat64(&s.centroids), cvec64(&s.counts), sf64(s.inertia), cbool(s.ok))).collect();
             let coq = format!(
-                "{{| c_id := {}; c_body := KM {{| kc_metric := {}; kc_tol := {}; kc_init := {}; kc_steps := [{}] |}} |}}",
-                cn(id), mname, sf64(tol), cmat64(&init), st.join("; ")
+                "{{| c_id := {}; c_body := KM {{| kc_f32 := {}; kc_metric := {}; kc_tol := {}; kc_init := {}; kc_steps := [{}] |}} |}}",
+                cn(id), cbool(F::F32), mname, sf64(tol), cmat64(&init), st.join("; ")
             );
             let key = if k > 1 && nb > 1 { Some(fnv_f64s(&batches.concat().concat(), id)) } else { None };
             out.case(id, &coq, &tagrefs, &desc, key);
@@ -475,51 +522,62 @@ fn km_case(out: &mut Out, id: u64, r: &mut Sm64, thorough: bool) {
 // ------------------------------------------------------------------------------------------------
 // FTRL
 // ------------------------------------------------------------------------------------------------
-fn ftrl_from_parts(alpha: f64, beta: f64, l1: f64, l2: f64, z: &[f64], n: &[f64]) -> Ftrl<f64> {
+fn ftrl_from_parts<F: HF>(alpha: f64, beta: f64, l1: f64, l2: f64, z: &[f64], n: &[f64]) -> Ftrl<F> {
     // field order of `Ftrl`: alpha, beta, l1_ratio, l2_ratio, z, n
-    let bytes = bincode::serialize(&(alpha, beta, l1, l2, Array1::from(z.to_vec()), Array1::from(n.to_vec()))).unwrap();
+    let zf: Array1<F> = z.iter().map(|v| F::of64(*v)).collect();
+    let nf: Array1<F> = n.iter().map(|v| F::of64(*v)).collect();
+    let bytes = bincode::serialize(&(F::of64(alpha), F::of64(beta), F::of64(l1), F::of64(l2), zf, nf)).unwrap();
     bincode::deserialize(&bytes).unwrap()
 }
 
-fn ftrl_case(out: &mut Out, id: u64, r: &mut Sm64, thorough: bool) {
+fn ftrl_case<F: HF>(out: &mut Out, id: u64, r: &mut Sm64, thorough: bool) {
     let d = 1 + r.below(5) as usize;
-    let alpha = *r.pick(&[0.005, 0.1, 1.0, 2.5]);
-    let beta = *r.pick(&[0.0, 0.5, 1.0, 3.0]);
-    let l1 = *r.pick(&[0.0, 0.1, 0.5, 0.5, 1.0]);
-    let mut l2 = *r.pick(&[0.0, 0.3, 1.0]);
-    // beta = 0 and l2 = 0 pass the parameter guard but make the weight denominator (sqrt n + beta)/alpha + l2
-    // vanish on a fresh model (n = 0): infinite weights, NaN state. The recurrence is stated for positive denominators.
-    if beta == 0.0 && l2 == 0.0 { l2 = 0.3; }
+    let alpha = rnd::<F>(*r.pick(&[0.005, 0.1, 1.0, 2.5]));
+    let beta = rnd::<F>(*r.pick(&[0.0, 0.5, 1.0, 3.0]));
+    let l1 = rnd::<F>(*r.pick(&[0.0, 0.1, 0.5, 0.5, 1.0]));
+    let mut l2 = rnd::<F>(*r.pick(&[0.0, 0.3, 1.0]));
+    // beta = 0 and l2 = 0 pass the parameter guard (beta = 0 is the default, l2 = 0 is inside [0, 1]) but make the
+    // weight denominator (sqrt n + beta)/alpha + l2 vanish wherever n = 0: a coordinate with |z| > l1 - every fresh
+    // model draws z from U(0,1) - gets an infinite weight and the next update makes the state non-finite for ever
+    // (finding F-C15-2).  Two thirds of these draws keep the corner (tagged, with the IEEE expectation on the
+    // weights); the rest move to l2 = 0.3 as before.
+    if beta == 0.0 && l2 == 0.0 && r.chance(0.34) { l2 = rnd::<F>(0.3); }
+    let corner_params = beta == 0.0 && l2 == 0.0;
     let seed = r.below(1000);
     let crafted = r.chance(0.4);
-    let tags = vec!["ftrl".to_string()];
-    let tagrefs: Vec<&str> = tags.iter().map(|s| s.as_str()).collect();
-    let params = match Ftrl::<f64>::params_with_rng(Xoshiro256Plus::seed_from_u64(seed)).alpha(alpha).beta(beta).l1_ratio(l1).l2_ratio(l2).check() {
+    let params = match Ftrl::<F>::params_with_rng(Xoshiro256Plus::seed_from_u64(seed)).alpha(F::of64(alpha)).beta(F::of64(beta)).l1_ratio(F::of64(l1)).l2_ratio(F::of64(l2)).check() {
         Ok(p) => p,
-        Err(e) => { out.rust_fail(id, 1 << 23, &tagrefs, &format!("valid FTRL parameters rejected: {}", e), "{}"); return; }
+        Err(e) => { out.rust_fail(id, 1 << 23, &["ftrl"], &format!("valid FTRL parameters rejected: {}", e), "{}"); return; }
     };
     let mut model = Ftrl::new(params.clone(), d);
     if crafted {
         // a state on and around the l1 border, both signs, signed zeros, some accumulated n
-        let z: Vec<f64> = (0..d).map(|_| match r.below(8) {
-            0 => l1, 1 => -l1, 2 => l1 + l1 * f64::EPSILON + 1e-300, 3 => -(l1 + l1 * f64::EPSILON + 1e-300), 4 => 0.0, 5 => -0.0,
+        let ulp = if F::F32 { f32::EPSILON as f64 } else { f64::EPSILON };
+        let z: Vec<f64> = (0..d).map(|_| rnd::<F>(match r.below(8) {
+            0 => l1, 1 => -l1, 2 => l1 + l1 * ulp + 1e-300, 3 => -(l1 + l1 * ulp + 1e-300), 4 => 0.0, 5 => -0.0,
             6 => l1 * 0.999, _ => (r.unit() - 0.5) * 6.0,
-        }).collect();
-        let n: Vec<f64> = (0..d).map(|_| if r.chance(0.4) { 0.0 } else { (r.unit() * 3.0).powi(2) }).collect();
-        model = ftrl_from_parts(alpha, beta, l1, l2, &z, &n);
+        })).collect();
+        let n: Vec<f64> = (0..d).map(|_| rnd::<F>(if r.chance(0.4) { 0.0 } else { (r.unit() * 3.0).powi(2) })).collect();
+        model = ftrl_from_parts::<F>(alpha, beta, l1, l2, &z, &n);
     }
-    let z0 = model.z().to_vec();
-    let n0 = model.n().to_vec();
-    let w0 = model.get_weights().to_vec();
+    let z0 = vec64(model.z());
+    let n0 = vec64(model.n());
+    let w0 = vec64(&model.get_weights());
+    // decidable from the input: some coordinate of the initial state has a vanishing denominator and |z| > l1
+    let zero_den = corner_params && z0.iter().zip(&n0).any(|(z, n)| *n == 0.0 && z.abs() > l1);
+    let mut tags = vec!["ftrl".to_string(), if F::F32 { "f32".into() } else { "f64".into() }];
+    if zero_den { tags.push("ftrl_zero_denominator".into()); }
+    let tagrefs: Vec<&str> = tags.iter().map(|s| s.as_str()).collect();
     let nsteps = 1 + r.below(if thorough { 8 } else { 5 }) as usize;
     let mut steps: Vec<String> = Vec::new();
     let mut nfit = 0;
     let mut zero_w = w0.iter().filter(|w| **w == 0.0).count();
+    let mut inf_w = w0.iter().filter(|w| w.is_infinite()).count();
     for _ in 0..nsteps {
         let n = if d == 1 && r.chance(0.5) { 8 + r.below(20) as usize } else { 1 + r.below(14) as usize };
-        let x: Vec<Vec<f64>> = (0..n).map(|_| (0..d).map(|_| match r.below(4) { 0 => 0.0, 1 => r.range(-2, 2) as f64, _ => r.gauss() }).collect()).collect();
+        let x: Vec<Vec<f64>> = (0..n).map(|_| (0..d).map(|_| rnd::<F>(match r.below(4) { 0 => 0.0, 1 => r.range(-2, 2) as f64, _ => r.gauss() })).collect()).collect();
         let y: Vec<bool> = (0..n).map(|_| r.chance(0.5)).collect();
-        let ds = Dataset::new(arr(&x, d), Array1::from(y.clone()));
+        let ds = Dataset::new(arr::<F>(&x, d), Array1::from(y.clone()));
         let use_fit = r.chance(0.5);
         let ps: Vec<f32> = if use_fit {
             // the probabilities fit_with computes itself are observable through predict on the same state
@@ -533,49 +591,53 @@ fn ftrl_case(out: &mut Out, id: u64, r: &mut Sm64, thorough: bool) {
             let mut copy = model.clone();
             copy.update(&ds, Array1::from(ps.iter().map(|p| Pr::new(*p)).collect::<Vec<_>>()).view());
             model = match params.fit_with(Some(model), &ds) { Ok(m) => m, Err(e) => { out.rust_fail(id, 1 << 23, &tagrefs, &format!("fit_with failed: {}", e), "{}"); return; } };
-            let same = copy.z().iter().zip(model.z().iter()).all(|(a, b)| a.to_bits() == b.to_bits())
-                && copy.n().iter().zip(model.n().iter()).all(|(a, b)| a.to_bits() == b.to_bits());
+            let same = copy.z().iter().zip(model.z().iter()).all(|(a, b)| a.to64().to_bits() == b.to64().to_bits() || (a.is_nan() && b.is_nan()))
+                && copy.n().iter().zip(model.n().iter()).all(|(a, b)| a.to64().to_bits() == b.to64().to_bits() || (a.is_nan() && b.is_nan()));
             if !same { out.rust_fail(id, 1 << 18, &tagrefs, "fit_with differs from update with the predicted probabilities", "{}"); }
-            // the probabilities are the sigmoid of the linear score (clamped to +-35), rounded to f32
-            let w = copy.get_weights();
-            let _ = w;
         } else {
             model.update(&ds, Array1::from(ps.iter().map(|p| Pr::new(*p)).collect::<Vec<_>>()).view());
         }
-        let w = model.get_weights().to_vec();
+        let w = vec64(&model.get_weights());
         zero_w += w.iter().filter(|v| **v == 0.0).count();
+        inf_w += w.iter().filter(|v| v.is_infinite()).count();
         steps.push(format!(
             "{{| fs_X := {}; fs_y := {}; fs_p := {}; fs_z := {}; fs_n := {}; fs_w := {} |}}",
             cmat64(&x), clist(&y, |b| cbool(*b).to_string()), cvec64(&ps.iter().map(|p| *p as f64).collect::<Vec<_>>()),
-            cvec64(&model.z().to_vec()), cvec64(&model.n().to_vec()), cvec64(&w)
+            cvec64(&vec64(model.z())), cvec64(&vec64(model.n())), cvec64(&w)
         ));
     }
-    // fresh model: sigmoid sanity of predict (model-free)
+    // sigmoid sanity of predict (model-free), wherever the weights are finite
     {
-        let x: Vec<Vec<f64>> = (0..4).map(|_| (0..d).map(|_| 3.0 * r.gauss()).collect()).collect();
-        let xa = arr(&x, d);
-        let w = model.get_weights();
-        let p = model.predict(&xa);
-        for i in 0..4 {
-            let s: f64 = x[i].iter().zip(w.iter()).map(|(a, b)| a * b).sum::<f64>().max(-35.0).min(35.0);
-            let want = 1.0 / (1.0 + (-s).exp());
-            if !((*p[i] as f64 - want).abs() <= 1e-6) {
-                out.rust_fail(id, 1 << 19, &tagrefs, &format!("predict gives {:e}, sigmoid of the linear score is {:e}", *p[i], want), "{}");
+        let x: Vec<Vec<f64>> = (0..4).map(|_| (0..d).map(|_| rnd::<F>(3.0 * r.gauss())).collect()).collect();
+        let xa = arr::<F>(&x, d);
+        let w = vec64(&model.get_weights());
+        if w.iter().all(|v| v.is_finite()) {
+            let p = model.predict(&xa);
+            for i in 0..4 {
+                let s: f64 = x[i].iter().zip(w.iter()).map(|(a, b)| a * b).sum::<f64>().max(-35.0).min(35.0);
+                let want = 1.0 / (1.0 + (-s).exp());
+                if !((*p[i] as f64 - want).abs() <= if F::F32 { 1e-4 } else { 1e-6 }) {
+                    out.rust_fail(id, 1 << 19, &tagrefs, &format!("predict gives {:e}, sigmoid of the linear score is {:e}", *p[i], want), "{}");
+                }
             }
         }
     }
     let desc = format!(
-        "{{\"learner\": \"ftrl\", \"d\": {}, \"alpha\": {}, \"beta\": {}, \"l1\": {}, \"l2\": {}, \"seed\": {}, \"crafted_state\": {}, \"steps\": {}, \"fit_with_steps\": {}, \"z0\": {:?}}}",
-        d, alpha, beta, l1, l2, seed, crafted, nsteps, nfit, z0
+        "{{\"learner\": \"ftrl\", \"float\": {}, \"d\": {}, \"alpha\": {}, \"beta\": {}, \"l1\": {}, \"l2\": {}, \"seed\": {}, \"crafted_state\": {}, \"zero_denominator\": {}, \"steps\": {}, \"fit_with_steps\": {}, \"z0\": {:?}}}",
+        jstr(if F::F32 { "f32" } else { "f64" }), d, alpha, beta, l1, l2, seed, crafted, zero_den, nsteps, nfit, z0
     );
     out.bump("ftrl_cases");
+    out.bump(if F::F32 { "ftrl_f32" } else { "ftrl_f64" });
     out.bump_by("ftrl_steps", nsteps as u64);
     out.bump_by("ftrl_fit_with_steps", nfit as u64);
     out.bump_by("ftrl_zero_weights_seen", zero_w as u64);
+    out.bump_by("ftrl_infinite_weights_seen", inf_w as u64);
     if crafted { out.bump("ftrl_crafted_border_state"); }
+    if corner_params { out.bump("ftrl_beta0_l2_0"); }
+    if zero_den { out.bump("ftrl_zero_denominator"); }
     let coq = format!(
-        "{{| c_id := {}; c_body := FT {{| fc_alpha := {}; fc_beta := {}; fc_l1 := {}; fc_l2 := {}; fc_d := {}; fc_z0 := {}; fc_n0 := {}; fc_w0 := {}; fc_steps := [{}] |}} |}}",
-        cn(id), sf64(alpha), sf64(beta), sf64(l1), sf64(l2), cn(d as u64), cvec64(&z0), cvec64(&n0), cvec64(&w0), steps.join("; ")
+        "{{| c_id := {}; c_body := FT {{| fc_f32 := {}; fc_alpha := {}; fc_beta := {}; fc_l1 := {}; fc_l2 := {}; fc_d := {}; fc_z0 := {}; fc_n0 := {}; fc_w0 := {}; fc_steps := [{}] |}} |}}",
+        cn(id), cbool(F::F32), sf64(alpha), sf64(beta), sf64(l1), sf64(l2), cn(d as u64), cvec64(&z0), cvec64(&n0), cvec64(&w0), steps.join("; ")
     );
     out.case(id, &coq, &tagrefs, &desc, Some(fnv_f64s(&z0, id)));
 }
@@ -585,11 +647,20 @@ fn main() {
     let mut rng = Sm64::new(args.seed);
     let thorough = args.tier == "thorough";
     let mut out = Out::new(&args.out, args.shards, "C15.Corr", "case", args.only);
+    let repaired = gnb_repaired();
+    if repaired { out.bump("gnb_repaired_source"); }
     let (n_exh, n_rand, n_km, n_ft) = if thorough { (120, 500, 700, 900) } else { (40, 90, 150, 190) };
+    // binary32 cases are appended after the binary64 ones of each learner; ids are spread over the shards modulo
+    // 16, so the slow ones are too
+    let (m_exh, m_rand, m_km, m_ft) = if thorough { (48, 96, 160, 240) } else { (16, 32, 48, 64) };
     let mut id: u64 = 0;
-    for _ in 0..n_exh { let mut r = rng.fork(); nb_case(&mut out, id, &mut r, true, thorough); id += 1; }
-    for _ in 0..n_rand { let mut r = rng.fork(); nb_case(&mut out, id, &mut r, false, thorough); id += 1; }
-    for _ in 0..n_km { let mut r = rng.fork(); km_case(&mut out, id, &mut r, thorough); id += 1; }
-    for _ in 0..n_ft { let mut r = rng.fork(); ftrl_case(&mut out, id, &mut r, thorough); id += 1; }
-    out.finish("naive Bayes: datasets from 5 families x {gaussian, multinomial} x smoothing values, cut into every composition of n<=8 rows (exhaustive stream) or into random unequal cuts, single-row batches, n-1|1 and 1|n-1 (random stream), shuffled or sorted by class (class-incomplete batches), k identical blocks (equal epsilons); k-means: 4 data families x 3 metrics x precomputed/random initial centroids (far-away centroids that never receive a point, tolerance placed exactly on an observed shift); FTRL: hyper-parameter grid x seeds x crafted states on the l1 border x update/fit_with steps. non-trivial: naive Bayes with >= 2 classes and a history of >= 2 batches, k-means with k > 1 and >= 2 batches, every FTRL history; distinct = distinct (data, id) hashes");
+    for _ in 0..n_exh { let mut r = rng.fork(); nb_case::<f64>(&mut out, id, &mut r, true, thorough, repaired); id += 1; }
+    for _ in 0..n_rand { let mut r = rng.fork(); nb_case::<f64>(&mut out, id, &mut r, false, thorough, repaired); id += 1; }
+    for _ in 0..n_km { let mut r = rng.fork(); km_case::<f64>(&mut out, id, &mut r, thorough); id += 1; }
+    for _ in 0..n_ft { let mut r = rng.fork(); ftrl_case::<f64>(&mut out, id, &mut r, thorough); id += 1; }
+    for _ in 0..m_exh { let mut r = rng.fork(); nb_case::<f32>(&mut out, id, &mut r, true, thorough, repaired); id += 1; }
+    for _ in 0..m_rand { let mut r = rng.fork(); nb_case::<f32>(&mut out, id, &mut r, false, thorough, repaired); id += 1; }
+    for _ in 0..m_km { let mut r = rng.fork(); km_case::<f32>(&mut out, id, &mut r, thorough); id += 1; }
+    for _ in 0..m_ft { let mut r = rng.fork(); ftrl_case::<f32>(&mut out, id, &mut r, thorough); id += 1; }
+    out.finish("each learner at f64 and (about a quarter of the cases) at f32. naive Bayes: datasets from 5 families x {gaussian, multinomial} x smoothing values, cut into every composition of n<=8 rows (exhaustive stream; n<=5 at f32) or into random unequal cuts, single-row batches, n-1|1 and 1|n-1 (random stream), shuffled or sorted by class (class-incomplete batches), k identical blocks (equal epsilons); k-means: 4 data families x 3 metrics x precomputed/random initial centroids (far-away centroids that never receive a point, tolerance placed exactly on an observed shift); FTRL: hyper-parameter grid (including beta = 0 with l2 = 0: vanishing weight denominator) x seeds x crafted states on the l1 border x update/fit_with steps. non-trivial: naive Bayes with >= 2 classes and a history of >= 2 batches, k-means with k > 1 and >= 2 batches, every FTRL history; distinct = distinct (data, id) hashes");
 }
